@@ -52,6 +52,8 @@ structure St where
   waiting : List Waiting := []
   emitted : List Nat := []       -- media SSRCs mentioned since the last flush
   blocked : Nat := 0
+  written : List Nat := []       -- local SSRCs with at least one write since the case started
+  loops : List Nat := []         -- start times of all loop goroutines (a second BindRTCPWriter starts a second one)
   deriving Repr
 
 def insertSorted (x : Nat) : List Nat → List Nat
@@ -81,7 +83,7 @@ def bindW (s : St) : St × Outcome :=
   let fromQueue := s.queued
   let fromWaiting := s.waiting.filterMap fun w => match w with | .forcePLI x => some x | .handoff => none
   let boundNow := s.waiting.filterMap fun w => match w with | .forcePLI x => some x | .handoff => none
-  ({ s with loopStart := some (s.loopStart.getD s.now), queued := [], waiting := [],
+  ({ s with loopStart := some (s.loopStart.getD s.now), loops := s.loops ++ [s.now], queued := [], waiting := [],
             readers := addAll boundNow s.readers,
             emitted := addAll (fromQueue ++ fromWaiting) s.emitted }, .ret)
 
@@ -106,7 +108,7 @@ def unbindLocal (s : St) (ssrc : Nat) : St × Outcome :=
   ({ s with loc := s.loc.filter (· != ssrc) }, .ret)
 
 def write (s : St) (ssrc : Nat) : St × Outcome :=
-  if s.writers.contains ssrc then (s, .ret) else (s, .unbound)
+  if s.writers.contains ssrc then ({ s with written := insertSorted ssrc s.written }, .ret) else (s, .unbound)
 
 def read (s : St) (ssrc : Nat) : St × Outcome :=
   if !s.readers.contains ssrc then (s, .unbound) else
@@ -132,9 +134,8 @@ def tickSet (s : St) : List Nat :=
 
 /-- number of ticks in the half-open interval (now, now+ms]. -/
 def ticksIn (s : St) (ms : Nat) : Nat :=
-  match s.loopStart with
-  | none => 0
-  | some t0 => if s.closed then 0 else (s.now + ms - t0) / s.p.interval - (s.now - t0) / s.p.interval
+  if s.closed then 0 else
+  (s.loops.map fun t0 => (s.now + ms - t0) / s.p.interval - (s.now - t0) / s.p.interval).sum
 
 def advance (s : St) (ms : Nat) : St :=
   let e := if ticksIn s ms > 0 then addAll (tickSet s) s.emitted else s.emitted
